@@ -24,8 +24,10 @@ CFG = {
                   "selectors and controllingSelector.HandleBindingRequest as whole functions in effect mode). pion/stun "
                   "decoding and HMAC are modelled as perfect (integrity verifies iff the key is the expected password; "
                   "`authenticated`/`transaction-matched` ghost flags are set exactly after those checks). Not modelled: the "
-                  "application binding-request handler (the property is stated for agents without one), TCP candidates, mDNS, "
-                  "automatic renomination. The deferred-switch condition of controlledSelector.HandleSuccessResponse is translated as "
+                  "application binding-request handler (the property is stated for agents without one), TCP candidates, mDNS. "
+                  "Automatic renomination IS modelled (C20): the monitor clause 'a controlled agent never sends USE-CANDIDATE' is judged on "
+                  "every REQ datagram with the sender's role in the digests before and after the operation, also while the peer "
+                  "renominates automatically. The deferred-switch condition of controlledSelector.HandleSuccessResponse is translated as "
                   "a whole function in effect mode; its tie theorems are obligations of C20 (C20_code_controlled_success_response).",
     "components": [{"component": "agent", "args": "focus=C03", "session_start": "new", "trivial_regex": "^(bad-op.*|ended.*)$", "shrink_s": 40},
                    # the gather component of C18/C09, restricted to its block of candidate kinds (host from the interface table, host on
